@@ -160,6 +160,7 @@ type Func struct {
 	ErrFirst bool     `json:"err_first,omitempty"` // the error result is declared first instead of last (constructors / decorators)
 	ErrAt    int      `json:"err_at,omitempty"`    // >0: the error result is declared before top-level result ErrAt (in the middle)
 	ErrExtra int      `json:"err_extra,omitempty"` // a second error result that is always nil: 1 declared last, 2 declared first
+	ErrLike  bool     `json:"err_like,omitempty"`  // the error result is declared as an interface type that embeds error, not as error itself
 	Reenter  bool     `json:"reenter,omitempty"`   // constructor / decorator body calls Invoke for its own first result (re-entrant user code)
 	ReKey    *Key     `json:"re_key,omitempty"`    // with Reenter: the nested request is for this key instead ...
 	ReScope  int      `json:"re_scope,omitempty"`  // ... issued on this scope
@@ -341,6 +342,9 @@ func (f *Func) String() string {
 		switch x {
 		case -1:
 			b.WriteString("error")
+			if f.ErrLike {
+				b.WriteString("(declared as an interface embedding error)")
+			}
 		case -2:
 			b.WriteString("error(always nil)")
 		default:
